@@ -57,11 +57,15 @@ Expected(c) ==
   [lam |-> Tup([a \in 1..Len(ord) |-> c.d[ord[a]]]),
    vecs |-> Tup([a \in 1..Len(ord) |-> LET u == Col(R, ord[a]) IN Flip(u, MeanSign(u))])]
 
-(* admissible: distinct eigenvalues, no eigenvector with zero mean (its sign would be arbitrary), unambiguous selection *)
+(* admissible: distinct eigenvalues, unambiguous selection.  An eigenvector whose entries sum to exactly zero is       *)
+(* admissible too: both signs satisfy "non-negative mean", so its sign is free (SignFree) and the implementation is   *)
+(* compared up to sign for it -- every other clause (A q = lambda B q, q'Bq = 1, order) binds as usual.               *)
 Admissible(c) ==
   /\ \A i, j \in 1..Nn(c) : i # j => c.d[i] # c.d[j]
-  /\ \A i \in 1..Nn(c) : MeanSign(Col(RawVecs(c), i)) # 0
   /\ c.nmodes = 0 \/ \E S \in SUBSET (1..Nn(c)) : Cardinality(S) = c.nmodes /\ \A i \in S, j \in (1..Nn(c)) \ S : QLess(Dist(c, i), Dist(c, j))
+
+SignFree(c) == LET ord == Order(c) IN Tup([a \in 1..Len(ord) |-> MeanSign(Col(RawVecs(c), ord[a])) = 0])
+NoFreeSign(c) == \A i \in 1..Nn(c) : MeanSign(Col(RawVecs(c), i)) # 0      \* needed by the derivative cases (dq fixes the sign)
 
 (* ---- first-order perturbation theory (distinct eigenvalues): exact directional derivatives of the selected       ---- *)
 (* ---- eigenpairs along a symmetric direction (dA, dB)                                                               ---- *)
@@ -104,8 +108,9 @@ C11 ==
   /\ \A a, b \in 1..Len(E.lam) : a # b => QIsZero(DotQ(E.vecs[a], MatVec(B, E.vecs[b])))      \* B-orthogonal
 
 Emit == done => PrintT(<<"EIG", ToJson([A |-> AMat(cs), B |-> BMat(cs), std |-> (cs.l = LInv(cs.l)),
-                                       nmodes |-> cs.nmodes, sigma |-> cs.sigma, lam |-> Expected(cs).lam, vecs |-> Expected(cs).vecs])>>)
-EmitDer == done => PrintT(<<"EIGD", ToJson([A |-> AMat(cs), B |-> BMat(cs), std |-> (cs.l = LInv(cs.l)), nmodes |-> cs.nmodes, sigma |-> cs.sigma,
+                                       nmodes |-> cs.nmodes, sigma |-> cs.sigma, lam |-> Expected(cs).lam, vecs |-> Expected(cs).vecs,
+                                       signfree |-> SignFree(cs)])>>)
+EmitDer == (done /\ NoFreeSign(cs)) => PrintT(<<"EIGD", ToJson([A |-> AMat(cs), B |-> BMat(cs), std |-> (cs.l = LInv(cs.l)), nmodes |-> cs.nmodes, sigma |-> cs.sigma,
                                             lam |-> Expected(cs).lam, vecs |-> Expected(cs).vecs,
                                             der |-> {Deriv(cs, dir) : dir \in {dd \in Dirs : Len(dd.dA) = Nn(cs)}}])>>)
 (* consistency of the perturbation formulas with the defining equations, to first order:                                  *)
